@@ -600,6 +600,17 @@ pub fn corpus() -> Vec<KCase> {
     v.push(c);
     // turn restriction: the DESIGN §7 shape — single-via alternatives may take a listed turn
     v.push(restricted_turn_witness());
+    // the reverse search validates turn pairs in the wrong order: 0 -e0-> 1 -e1-> 2 with the pair (e1, e0)
+    // listed (a turn no route can take) — the reverse search refuses e0 after e1 and reports "no path"
+    let mut b = base_case(vec![(0, 1, 1.0), (1, 2, 1.0)], 3, 0, 2);
+    b.frontier = vec![Fr::TurnRestriction(vec![(1, 0)])];
+    let mut c = kcase(b, "reverse-search-nopath-witness");
+    c.bf_ok = false;
+    v.push(c);
+    // a limit the forward search respects stops the reverse search: 0 -> 1 -> 2 and 3, 4, 5 -> 2, size limit 2
+    let mut b = base_case(vec![(0, 1, 1.0), (1, 2, 1.0), (3, 2, 1.0), (4, 2, 1.0), (5, 2, 1.0)], 6, 0, 2);
+    b.term = Term::Size(2);
+    v.push(kcase(b, "reverse-search-limit-witness"));
     v
 }
 
@@ -916,9 +927,10 @@ fn run_single_via(ctx: &mut Ctx, idx: usize, kc: &KCase) {
             if let (Outcome::Ok(_), Some(_)) = (&plain.outcome, k_eff) {
                 if inner_target(c).is_some() {
                     let stage = if ex.runs >= 2 && ex.pops.is_empty() { "reverse-search" } else if !ex.pops.is_empty() { "alternative" } else { "first-search" };
+                    let kind = k.split(' ').next().unwrap_or("");
                     ctx.fail(
                         idx,
-                        &format!("ksp/answerable-query-error-{}", stage),
+                        &format!("ksp/single-via-{}-failed-{}", stage, kind),
                         format!(
                             "the plain search answers the query ({}) but single-via returned error '{}' (stage {}, {} intersection pops; turn restrictions {:?}; limits {:?})",
                             match &plain.outcome {
